@@ -317,3 +317,61 @@ pub fn run(args: &[Val]) -> Val {
     cx.fdt.close_ours();
     Val::L(out)
 }
+
+/// family "tx": one operation written through a socket that accepts only part of each write
+pub fn run_tx(args: &[Val]) -> Val {
+    let (maxq, st, caps) = match args {
+        [Val::N(m), st, Val::L(c)] => (*m as u64, st, c),
+        _ => return Val::err("args"),
+    };
+    let parts = match st.as_l() {
+        Some(p) if p.len() == 6 => p,
+        _ => return Val::err("step"),
+    };
+    let (a, b) = UnixStream::pair().unwrap();
+    let fe_fd = a.as_raw_fd();
+    let peer_fd = b.as_raw_fd();
+    let mut fe = Frontend::from_stream(a, maxq);
+    let mut cx = Ctx { fdt: FdTable::new(), eventfds: Default::default() };
+    let name = parts[0].as_s().unwrap_or("");
+    let a_ = nums(&parts[1]);
+    let bytes = parts[2].as_h().unwrap_or(&[]).to_vec();
+    let fds = nums(&parts[3]);
+    let regions: Vec<Vec<u64>> = parts[4].as_l().unwrap_or(&[]).iter().map(nums).collect();
+    let caps: Vec<usize> = caps.iter().map(|c| c.as_u64().unwrap_or(0) as usize).collect();
+    shim::register(fe_fd, &[]);
+    shim::set_rx_eof(fe_fd, true);
+    shim::set_tx_caps(fe_fd, &caps);
+    let res = call_op(&mut fe, &mut cx, name, &a_, &bytes, &fds, &regions);
+    shim::unregister(fe_fd);
+    // the peer reads byte by byte so that the byte a descriptor list rides on is known exactly
+    let mut wire = vec![];
+    let mut fdpos = vec![];
+    loop {
+        match unsafe { peer::recv_some(peer_fd, 1) } {
+            Some((bs, rf)) => {
+                if !rf.is_empty() {
+                    let ids: Vec<Val> = rf.iter().map(|f| n(cx.id_of(*f))).collect();
+                    for f in rf {
+                        unsafe { libc::close(f) };
+                    }
+                    fdpos.push(Val::L(vec![n(wire.len() as u64), Val::L(ids)]));
+                }
+                wire.extend_from_slice(&bs);
+            }
+            None => break,
+        }
+    }
+    if wire.len() == 12 + 24 {
+        let code = u32::from_le_bytes([wire[0], wire[1], wire[2], wire[3]]);
+        if code == 31 || code == 32 {
+            for x in wire[32..36].iter_mut() {
+                *x = 0;
+            }
+        }
+    }
+    drop(fe);
+    drop(b);
+    cx.fdt.close_ours();
+    Val::L(vec![res, Val::H(wire), Val::L(fdpos)])
+}
